@@ -225,6 +225,11 @@ class Server:
         self.srv = _ls.LangServer(conn=self.conn, settings=parse_cli(argv))
         self._mark = 0
         self._id = 0
+        # The order in which start-up meets the files follows the iteration order of a set of directory paths, i.e.
+        # the hash of the (random) scratch path.  That dimension belongs to C15, which scripts it; everywhere else the
+        # enumeration is pinned to the sorted order so that a run is a function of the case alone.
+        real = self.srv._get_source_files
+        self.srv._get_source_files = lambda: sorted(real())
 
     # -- raw ---------------------------------------------------------------
     def take_output(self):
